@@ -223,13 +223,45 @@ package gozxing
 //@   loop 1: invariant forall i2 int :: 0 <= i2 && i2 < len(array) && (i2 < offset || i2 >= offset + i) ==> array[i2] == old(array[i2])
 //@   loop 1: decreases 8 - j
 
+// rw(b, top, j): word j of the word-reversed, bit-reversed copy (before the realignment shift)
+//@ spec func rw(b *BitArray, top int, j int) uint32 = reverse32(b.bits[top - j])
+
+//@ lemma reverseWordBits(a uint32, c uint32, lo uint, r uint)
+//@   property C16
+//@   mode bv
+//@   requires 0 <= lo && lo < 32 && 0 <= r && r < 32
+//@   let w = lo == 0 ? reverse32(a) : (reverse32(a) >> lo) | (reverse32(c) << (32 - lo))
+//@   ensures r + lo < 32 ==> ((w >> r) & 1 == 1) == ((a >> (31 - (r + lo))) & 1 == 1)
+//@   ensures r + lo >= 32 ==> ((w >> r) & 1 == 1) == ((c >> (63 - (r + lo))) & 1 == 1)
+
 //@ func (b *BitArray) Reverse()
 //@   property C16
 //@   mode bv
 //@   requires wfBA(b)
-//@   ensures wfBA(b) && padBA(b) && b.size == old(b.size)
-//@   ensures forall k int :: 0 <= k && k < b.size ==> bit(b, k) == old(bit(b, b.size - 1 - k))
+//@   ensures wfBA(b) && b.size == old(b.size) && (b.size > 0 ==> padBA(b))
+//@   // word-level statement of "bit k of the result is bit size-1-k of the original": with top = (size-1)/32 and
+//@   // lo = (top+1)*32 - size, word j is rev(old[top-j]) >> lo | rev(old[top-j-1]) << (32-lo); the bit-level reading of
+//@   // one such word is lemma reverseWordBits below, the index arithmetic between the two is linear.
+//@   let top = (b.size-1)/32
+//@   let lo = uint((top+1)*32 - b.size)
+//@   ensures b.size > 0 && lo == 0 ==> forall j int :: 0 <= j && j <= top ==> b.bits[j] == old(reverse32(b.bits[top-j]))
+//@   ensures b.size > 0 && lo != 0 ==> forall j int :: 0 <= j && j < top ==> b.bits[j] == old((reverse32(b.bits[top-j]) >> lo) | (reverse32(b.bits[top-j-1]) << (32 - lo)))
+//@   ensures b.size > 0 && lo != 0 ==> b.bits[top] == old(reverse32(b.bits[0]) >> lo)
+//@   ensures b.size > 0 ==> forall j int :: top < j && j < len(b.bits) ==> b.bits[j] == 0
 //@   modifies b.bits
+//@   loop 0: invariant 0 <= i && i <= oldBitsLen && b.size > 0 && len == (b.size-1)/32 && oldBitsLen == len + 1 && oldBitsLen <= len(b.bits)
+//@   loop 0: invariant fresh(newBits) && len(newBits) == len(b.bits) && off(newBits) == 0 && b.bits == old(b.bits) && b.size == old(b.size)
+//@   loop 0: invariant forall j int :: 0 <= j && j < i ==> newBits[len-j] == reverse32(b.bits[j])
+//@   loop 0: invariant forall j int :: oldBitsLen <= j && j < len(newBits) ==> newBits[j] == 0
+//@   loop 0: decreases oldBitsLen - i
+//@   loop 1: invariant 1 <= i && i <= oldBitsLen && b.size > 0 && len == (b.size-1)/32 && oldBitsLen == len + 1 && oldBitsLen <= len(b.bits)
+//@   loop 1: invariant fresh(newBits) && len(newBits) == len(b.bits) && off(newBits) == 0 && b.bits == old(b.bits) && b.size == old(b.size)
+//@   loop 1: invariant 0 < leftOffset && leftOffset < 32 && leftOffset == uint(oldBitsLen*32 - b.size)
+//@   loop 1: invariant forall j int :: i <= j && j < oldBitsLen ==> newBits[j] == rw(b, len, j)
+//@   loop 1: invariant forall j int :: 0 <= j && j < i-1 ==> newBits[j] == (rw(b, len, j) >> leftOffset) | (rw(b, len, j+1) << (32 - leftOffset))
+//@   loop 1: invariant currentInt == rw(b, len, i-1) >> leftOffset
+//@   loop 1: invariant forall j int :: oldBitsLen <= j && j < len(newBits) ==> newBits[j] == 0
+//@   loop 1: decreases oldBitsLen - i
 
 //@ func (b *BitArray) String() (s string)
 //@   property C16
@@ -237,3 +269,85 @@ package gozxing
 //@   requires wfBA(b) && b.size <= 1<<26
 //@   modifies nothing
 //@   loop 0: invariant fresh(result)
+
+// ---------------------------------------------------------------- BitMatrix: abstract view
+//
+// mget(m,x,y) is the naive boolean-grid view for 0 <= x < rowSize*32, 0 <= y < height (columns at and
+// beyond width are padding); wfBM is the representation invariant; padBM says the padding is zero
+// (GetEnclosingRectangle, GetTopLeftOnBit, GetBottomRightOnBit and Rotate180 scan whole words and rely on it).
+
+//@ spec func mget(m *BitMatrix, x int, y int) bool = (m.bits[y*m.rowSize + x/32] >> uint(x%32)) & 1 == 1
+//@ pred wfBM(m *BitMatrix) = m.width >= 1 && m.height >= 1 && m.width <= 1<<20 && m.height <= 1<<20 && m.rowSize == (m.width+31)/32 && len(m.bits) == m.rowSize*m.height
+//@ pred padBM(m *BitMatrix) = forall x int, y int :: m.width <= x && x < m.rowSize*32 && 0 <= y && y < m.height ==> !mget(m, x, y)
+//@ pred inBM(m *BitMatrix, x int, y int) = 0 <= x && x < m.rowSize*32 && 0 <= y && y < m.height
+
+// index of word c of row y lies inside the rs*h words of the matrix (the one non-linear fact needed)
+//@ lemma rowIdx(y int, h int, rs int, c int)
+//@   property C16
+//@   requires 0 <= y && y < h && 0 <= c && c < rs
+//@   ensures 0 <= y*rs + c && y*rs + c < rs*h && y*rs <= y*rs + c
+//@ pred widx(m *BitMatrix, x int, y int) = hint(rowIdx(y, m.height, m.rowSize, x/32))
+
+//@ func NewBitMatrix(width int, height int) (r *BitMatrix, e error)
+//@   property C16
+//@   requires width <= 1<<20 && height <= 1<<20
+//@   ensures (width < 1 || height < 1) ==> r == nil && e != nil
+//@   ensures !(width < 1 || height < 1) ==> e == nil && r != nil && fresh(r) && wfBM(r) && r.width == width && r.height == height
+//@   ensures !(width < 1 || height < 1) ==> forall x int, y int :: inBM(r, x, y) ==> !mget(r, x, y)
+//@   modifies nothing
+
+//@ func (b *BitMatrix) Get(x int, y int) (r bool)
+//@   property C16 C19
+//@   requires wfBM(b)
+//@   use rowIdx(y, b.height, b.rowSize, x/32)
+//@   ensures r == (0 <= x && x < b.width && 0 <= y && y < b.height && mget(b, x, y))
+//@   modifies nothing
+
+//@ func (b *BitMatrix) Set(x int, y int)
+//@   property C16
+//@   requires wfBM(b) && 0 <= x && x < b.width && 0 <= y && y < b.height
+//@   use rowIdx(y, b.height, b.rowSize, x/32)
+//@   ensures forall x2 int, y2 int :: widx(b, x2, y2) && inBM(b, x2, y2) ==> mget(b, x2, y2) == (old(mget(b, x2, y2)) || (x2 == x && y2 == y))
+//@   modifies b.bits[*]
+
+//@ func (b *BitMatrix) Unset(x int, y int)
+//@   property C16
+//@   requires wfBM(b) && 0 <= x && x < b.width && 0 <= y && y < b.height
+//@   use rowIdx(y, b.height, b.rowSize, x/32)
+//@   ensures forall x2 int, y2 int :: widx(b, x2, y2) && inBM(b, x2, y2) ==> mget(b, x2, y2) == (old(mget(b, x2, y2)) && !(x2 == x && y2 == y))
+//@   modifies b.bits[*]
+
+//@ func (b *BitMatrix) Flip(x int, y int)
+//@   property C16
+//@   requires wfBM(b) && 0 <= x && x < b.width && 0 <= y && y < b.height
+//@   use rowIdx(y, b.height, b.rowSize, x/32)
+//@   ensures forall x2 int, y2 int :: widx(b, x2, y2) && inBM(b, x2, y2) ==> mget(b, x2, y2) == (old(mget(b, x2, y2)) != (x2 == x && y2 == y))
+//@   modifies b.bits[*]
+
+//@ func (b *BitMatrix) Clear()
+//@   property C16
+//@   requires wfBM(b)
+//@   ensures forall x int, y int :: widx(b, x, y) && inBM(b, x, y) ==> !mget(b, x, y)
+//@   modifies b.bits[*]
+//@   loop 0: invariant 0 <= i && i <= max && max == len(b.bits)
+//@   loop 0: invariant forall j int :: 0 <= j && j < i ==> b.bits[j] == 0
+//@   loop 0: decreases max - i
+
+//@ func (b *BitMatrix) FlipAll()
+//@   property C16
+//@   requires wfBM(b) && padBM(b)
+//@   ensures padBM(b)
+//@   ensures forall x int, y int :: 0 <= x && x < b.width && 0 <= y && y < b.height ==> mget(b, x, y) == !old(mget(b, x, y))
+//@   modifies b.bits[*]
+//@   loop 0: invariant 0 <= i && i <= max && max == len(b.bits)
+//@   loop 0: invariant forall j int :: 0 <= j && j < len(b.bits) ==> b.bits[j] == (j < i ? ^old(b.bits[j]) : old(b.bits[j]))
+//@   loop 0: decreases max - i
+
+//@ func (b *BitMatrix) GetWidth() (r int)
+//@   property C16
+//@   ensures r == b.width
+//@   modifies nothing
+//@ func (b *BitMatrix) GetHeight() (r int)
+//@   property C16
+//@   ensures r == b.height
+//@   modifies nothing
